@@ -1011,12 +1011,19 @@ Definition judge_case (c : case) (ob : fobs) : sx :=
         end
   end.
 
+(* the driver reports an invocation that produced no answer within its stall limit as (hang):
+   for this property that is a violation ("stopped with an error ... instead of hanging") *)
+Definition is_hang (o : sx) : bool :=
+  match o with Lx [Ax t] => String.eqb t "hang" | _ => false end.
+
 Definition judge_fsm (x : sx) : sx :=
   match x with
   | Lx [c; o] =>
-      match dec_case c, dec_fobs o with
-      | Some cc, Some oo => judge_case cc oo
-      | _, _ => v_malformed
+      match dec_case c with
+      | Some cc =>
+          if is_hang o then v_bad "hang" (Ax "answer-within-the-transition-limit")
+          else match dec_fobs o with Some oo => judge_case cc oo | None => v_malformed end
+      | None => v_malformed
       end
   | _ => v_malformed
   end.
